@@ -510,6 +510,8 @@ func c12Stream(r *hx.Rand, tier string, n int, w *bufio.Writer) map[string]int {
 		stats["decoder-"+dec]++
 		emit(l)
 	}
+	// ---- (c2) generic JSON documents: language tags, locales, documents with a locale member (round trip), the other decoders
+	c12CodecStream(r, tier, n, emit, func() int64 { return int64(caseNo) }, stats)
 	// ---- (d) AES sealing
 	for i := 0; i < n/3; i++ {
 		klen := hx.Pick(r, 16, 24, 32)
@@ -530,7 +532,7 @@ func c12Stream(r *hx.Rand, tier string, n int, w *bufio.Writer) map[string]int {
 		if r.Chance(30) {
 			plain = []byte(hx.Pick(r, "at1:user-1", "ar7", "id:sub:with:colons", "ünï"))
 		}
-		l := hx.NewLine("C12").I("case", int64(caseNo)).S("kind", "seal").S("plain", hex.EncodeToString(plain))
+		l := hx.NewLine("C12").I("case", int64(caseNo)).S("kind", "seal").S("plain", hex.EncodeToString(plain)).I("klen", int64(klen))
 		var enc string
 		var err error
 		p, _ := safeDecode(func() error { enc, err = crypto.EncryptAES(string(plain), string(key)); return nil })
